@@ -1,17 +1,20 @@
 ----------------------------- MODULE Layout_MC -----------------------------
 (* Exhaustive configurations for Layout.tla (no history variables).           *)
-(* The option space is covered by *slices*: each slice is the full product of  *)
-(* the axes that interact for one aspect of the layout, the other axes pinned. *)
-(*   A  shapes      : compression x type x skip rules x block size x merging   *)
-(*                    x mode/devices x every tree template                      *)
-(*   B  leaf kinds  : graft x FD/avg/reuse/reset (all 16) x metrics x memory    *)
-(*                    reduction x intervals x mode x compression                *)
-(*   TF-A / TF-B, SM3, TFSO analogously                                         *)
-(* Layout_MC.cfg = quick, Layout_MCT.cfg = thorough (wider value sets).         *)
+(* The option space is explored in *slices*: each slice is the full product    *)
+(* [field : values, ...] of the axes that interact for one aspect of the        *)
+(* layout, the remaining axes pinned to one value:                              *)
+(*   DS_A  shapes     : compression x FD x preconditioner type x skip rules x   *)
+(*                      block size x merging x mode/devices x all tree templates *)
+(*   DS_B  leaf kinds : graft x FD/avg/reuse/reset (all 16) x metrics x memory   *)
+(*                      reduction x intervals x mode x compression               *)
+(*   TF_A / TF_B, SM3, TFSO analogously for tearfree, sm3 and tearfree's         *)
+(*   second-order transforms used directly.                                      *)
+(* Record sets are enumerated lazily by TLC; nothing here is a history variable. *)
+(* Layout_MC.cfg = quick (MC_Slices), Layout_MCT.cfg = thorough (MCT_Slices).    *)
 EXTENDS Layout
 
-F32(shapes) == [shapes |-> shapes, dtype |-> "float32", x64 |-> FALSE]
-F64(shapes) == [shapes |-> shapes, dtype |-> "float64", x64 |-> TRUE]
+F32(shapes)    == [shapes |-> shapes, dtype |-> "float32", x64 |-> FALSE]
+F64(shapes)    == [shapes |-> shapes, dtype |-> "float64", x64 |-> TRUE]
 X64F32(shapes) == [shapes |-> shapes, dtype |-> "float32", x64 |-> TRUE]
 
 (* parameter-tree templates: ranks 0..4, unit dimensions, several parameters   *)
@@ -30,89 +33,87 @@ ShapeSets ==
     << <<>> >> }
 FewShapeSets == { << <<4, 3>>, <<5>>, <<>> >>, << <<8, 6>>, <<1, 1>> >>, << <<2, 3, 2>> >> }
 
-Trees    == {F32(s) : s \in ShapeSets}
-FewTrees == {F32(s) : s \in FewShapeSets}
+Trees     == {F32(s) : s \in ShapeSets}
+TwoTrees  == {F32(<< <<4, 3>>, <<5>>, <<>> >>), F32(<< <<8, 6>>, <<1, 1>> >>)}
+FewTrees  == {F32(s) : s \in FewShapeSets}
 TreesT    == Trees \cup {F64(s) : s \in ShapeSets}
 FewTreesT == FewTrees \cup {F64(s) : s \in FewShapeSets} \cup {X64F32(s) : s \in FewShapeSets}
 
-Modes == { [mode |-> "plain", D |-> 1], [mode |-> "pmap", D |-> 2],
-           [mode |-> "shard", D |-> 1], [mode |-> "shard", D |-> 2], [mode |-> "shard", D |-> 3] }
-Merges == { [merge |-> FALSE, merge_bs |-> 4096], [merge |-> TRUE, merge_bs |-> 2],
-            [merge |-> TRUE, merge_bs |-> 4], [merge |-> TRUE, merge_bs |-> 4096] }
-Intervals == { [S |-> 1, P |-> 1], [S |-> 2, P |-> 2], [S |-> 1, P |-> 2] }
-
-DSCfg(graft, rank, fd, avg, reuse, reset, ptype, srl, sdg, metrics, fdm, memred, bs, mg, sp, md) ==
-  [graft |-> graft, rank |-> rank, fd |-> fd, avg |-> avg, reuse |-> reuse, reset |-> reset,
-   ptype |-> ptype, skip_rank_lt |-> srl, skip_dim_gt |-> sdg, metrics |-> metrics,
-   fd_metrics |-> fdm, memred |-> memred, bs |-> bs, merge |-> mg.merge, merge_bs |-> mg.merge_bs,
-   S |-> sp.S, P |-> sp.P, mode |-> md.mode, D |-> md.D, lobpcg |-> 0, eigh |-> FALSE]
-
-DS_A(ranks, srls, bss, merges, modes) ==
-  { DSCfg("SGD", rank, fd, fd, fd, FALSE, ptype, srl, sdg, TRUE, TRUE, FALSE, bs, mg,
-          [S |-> 1, P |-> 1], md) :
-      rank \in ranks, fd \in BOOLEAN, ptype \in {"ALL", "INPUT", "OUTPUT"}, srl \in srls,
-      sdg \in {2, 4096}, bs \in bss, mg \in merges, md \in modes }
-
-DS_B(grafts, ranks, bss, sps, modes) ==
-  { DSCfg(graft, rank, fd, avg, reuse, reset, "ALL", srl, 4096, metrics, fdm, memred, bs,
-          [merge |-> TRUE, merge_bs |-> 4096], sp, md) :
-      graft \in grafts, rank \in ranks, fd \in BOOLEAN, avg \in BOOLEAN, reuse \in BOOLEAN,
-      reset \in BOOLEAN, srl \in {1, 2}, metrics \in BOOLEAN, fdm \in BOOLEAN,
-      memred \in BOOLEAN, bs \in bss, sp \in sps, md \in modes }
-
 AllGrafts == {"NONE", "SGD", "ADAGRAD", "RMSPROP", "RMSPROP_NORMALIZED", "SQRT_N", "ADAGRAD_NORMALIZED"}
+PTypes    == {"ALL", "INPUT", "OUTPUT"}
+(* plain mode has no devices and the pmap layout does not depend on their number  *)
+(* (one leading axis, stripped): only sharded mode is explored for several counts *)
+Local     == {"plain", "pmap"}
+Sharded   == {"shard"}
+Neg(n)    == 0 - n
 
-DSCases(cfgs, trees) == {[opt |-> "ds", cfg |-> c, tree |-> t] : c \in cfgs, t \in trees}
+DS_A(ranks, srls, bss, mbss, modes, ds) ==
+  [graft : {"SGD"}, rank : ranks, fd : BOOLEAN, avg : {FALSE}, reuse : {TRUE}, reset : {FALSE},
+   ptype : PTypes, skip_rank_lt : srls, skip_dim_gt : {2, 4096}, metrics : {TRUE},
+   fd_metrics : {TRUE}, memred : {FALSE}, bs : bss, merge : BOOLEAN, merge_bs : mbss,
+   S : {1}, P : {1}, mode : modes, D : ds, lobpcg : {0}, eigh : {FALSE}]
 
-(* ---- SM3 ------------------------------------------------------------------ *)
-SM3Cfgs == {[beta1_8 |-> b1, beta2_8 |-> b2, wd_8 |-> wd, normalize |-> nm, sched |-> "none"] :
-              b1 \in {0, 4}, b2 \in {4, 8}, wd \in {0, 1}, nm \in BOOLEAN}
-SM3Cases(trees) == {[opt |-> "sm3", cfg |-> c, tree |-> t] : c \in SM3Cfgs, t \in trees}
+DS_B(grafts, ranks, bss, ivs, modes, ds) ==
+  [graft : grafts, rank : ranks, fd : BOOLEAN, avg : BOOLEAN, reuse : BOOLEAN, reset : BOOLEAN,
+   ptype : {"ALL"}, skip_rank_lt : {1, 2}, skip_dim_gt : {4096}, metrics : BOOLEAN,
+   fd_metrics : BOOLEAN, memred : BOOLEAN, bs : bss, merge : {TRUE}, merge_bs : {4096},
+   S : ivs, P : ivs, mode : modes, D : ds, lobpcg : {0, 1}, eigh : {FALSE}]
 
-(* ---- Tearfree ---------------------------------------------------------------- *)
-TFCfg(so, bs, md, graft, sr1, sdg, skr, ggt, ekf, gd, epsn, mf, clip, mom, ema, wd, wda, sched, sf, dec) ==
-  [so |-> so, bs |-> bs, PF |-> sf, SF |-> sf, decay_8 |-> dec, sk_rank |-> skr, add_ggt |-> ggt,
-   ekfac |-> ekf, lin_tail |-> FALSE, graft |-> graft, graft_decay_8 |-> gd, Start |-> 1,
-   skip_dim_gt |-> sdg, skip_rank1 |-> sr1, min_factor |-> mf, param_scale |-> FALSE,
-   clip_8 |-> clip, graft_eps_neg |-> epsn, merge_dims |-> md, ema |-> ema, nesterov |-> TRUE,
-   mom_8 |-> mom, wd_8 |-> wd, wd_after |-> wda, sched |-> sched]
+SM3Cfgs == [beta1_8 : {0, 4}, beta2_8 : {4, 8}, wd_8 : {0, 1}, normalize : BOOLEAN, sched : {"none"}]
 
 TF_A(bss, mds, skrs) ==
-  { TFCfg(so, bs, md, graft, sr1, sdg, skr, ge, ge, 6, FALSE, 128, 8, 4, FALSE, 0, TRUE, "none", 1, 8) :
-      so \in {"shampoo", "sketchy"}, bs \in bss, md \in mds, graft \in {"NONE", "SGD"},
-      sr1 \in BOOLEAN, sdg \in {3, 4096}, skr \in skrs, ge \in BOOLEAN }
+  [so : {"shampoo", "sketchy"}, bs : bss, PF : {1}, SF : {1}, decay_8 : {8}, sk_rank : skrs,
+   add_ggt : BOOLEAN, ekfac : BOOLEAN, lin_tail : {FALSE}, graft : {"NONE", "SGD"},
+   graft_decay_8 : {0}, Start : {1}, skip_dim_gt : {3, 4096}, skip_rank1 : BOOLEAN,
+   min_factor : {128}, param_scale : {FALSE}, clip_8 : {8}, graft_eps_neg : {FALSE},
+   merge_dims : mds, ema : {FALSE}, nesterov : {TRUE}, mom_8 : {4}, wd_8 : {0},
+   wd_after : {TRUE}, sched : {"none"}]
 
 TF_B ==
-  { TFCfg(so, 4, 1024, graft, TRUE, 4096, 2, FALSE, FALSE, gd, epsn, mf, clip, mom, ema, wd, wda, sched, sf, dec) :
-      so \in {"shampoo", "sketchy"}, graft \in {"NONE", "SGD", "RMSPROP", "ADAFACTOR"},
-      gd \in {0, 6, 8}, epsn \in BOOLEAN, mf \in {0, 2}, clip \in {4, 8}, mom \in {0, 4, 12},
-      ema \in BOOLEAN, wd \in {0 - 1, 0, 1}, wda \in BOOLEAN, sched \in {"none", "lin16"},
-      sf \in {0, 2}, dec \in {8, 12} }
-
-TFCases(cfgs, trees) == {[opt |-> "tf", cfg |-> c, tree |-> t] : c \in cfgs, t \in trees}
+  [so : {"shampoo", "sketchy"}, bs : {4}, PF : {0, 2}, SF : {1}, decay_8 : {8, 12}, sk_rank : {2},
+   add_ggt : {FALSE}, ekfac : {FALSE}, lin_tail : {FALSE},
+   graft : {"NONE", "SGD", "RMSPROP", "ADAFACTOR"}, graft_decay_8 : {0, 6, 8}, Start : {1},
+   skip_dim_gt : {4096}, skip_rank1 : {TRUE}, min_factor : {0, 2}, param_scale : {FALSE},
+   clip_8 : {4, 8}, graft_eps_neg : BOOLEAN, merge_dims : {1024}, ema : BOOLEAN,
+   nesterov : {TRUE}, mom_8 : {0, 4, 12}, wd_8 : {Neg(1), 0, 1}, wd_after : BOOLEAN,
+   sched : {"none", "lin16"}]
 
 TFSOCfgs ==
-  { TFCfg(so, bs, 1024, "NONE", FALSE, 4096, skr, ggt, ggt, 6, FALSE, 128, 8, 0, FALSE, 0, TRUE, "none", sf, dec) :
-      so \in {"shampoo", "sketchy"}, bs \in {1, 2, 3, 4}, skr \in {0, 1, 2}, ggt \in BOOLEAN,
-      sf \in {0, 1, 2}, dec \in {4, 8, 12} }
-TFSOCases(trees) == {[opt |-> "tfso", cfg |-> c, tree |-> t] : c \in TFSOCfgs, t \in trees}
+  [so : {"shampoo", "sketchy"}, bs : {1, 2, 3, 4}, PF : {0, 1}, SF : {0, 1, 2}, decay_8 : {4, 8, 12},
+   sk_rank : {0, 1, 2}, add_ggt : BOOLEAN, ekfac : BOOLEAN, lin_tail : {FALSE}, graft : {"NONE"},
+   graft_decay_8 : {0}, Start : {1}, skip_dim_gt : {4096}, skip_rank1 : {FALSE}, min_factor : {128},
+   param_scale : {FALSE}, clip_8 : {8}, graft_eps_neg : {FALSE}, merge_dims : {1024}, ema : {FALSE},
+   nesterov : {TRUE}, mom_8 : {0}, wd_8 : {0}, wd_after : {TRUE}, sched : {"none"}]
+
+Slice(opt, cfgs, trees) == [opt |-> opt, cfgs |-> cfgs, trees |-> trees]
 
 (* ---- quick ---------------------------------------------------------------------- *)
-MC_Cases ==
-  DSCases(DS_A({0, 1, 2, 0 - 1, 0 - 2}, {0, 1, 2, 3}, {1, 2, 3, 8}, Merges, Modes), Trees)
-  \cup DSCases(DS_B({"SGD", "ADAGRAD", "RMSPROP_NORMALIZED"}, {0, 1, 0 - 2}, {2, 8}, Intervals, Modes), FewTrees)
-  \cup SM3Cases(Trees)
-  \cup TFCases(TF_A({0, 1, 2, 3, 4, 1024}, {1, 2, 4, 1024}, {0, 1, 2, 8}), Trees)
-  \cup TFCases(TF_B, FewTrees)
-  \cup TFSOCases(Trees)
+MC_Slices ==
+  << Slice("ds", DS_A({0, 1, Neg(2)}, {0, 1, 3}, {1, 3, 8}, {4096}, Local, {1}), Trees),
+     Slice("ds", DS_A({0, 1, Neg(2)}, {0, 1, 3}, {1, 3, 8}, {4096}, Sharded, {1, 2, 3}), Trees),
+     Slice("ds", DS_B({"SGD", "RMSPROP_NORMALIZED"}, {0, 1}, {8}, {1, 2}, Local, {1}), TwoTrees),
+     Slice("ds", DS_B({"SGD", "RMSPROP_NORMALIZED"}, {0, 1}, {8}, {1, 2}, Sharded, {1, 2}), TwoTrees),
+     Slice("sm3", SM3Cfgs, Trees),
+     Slice("tf", TF_A({0, 1, 2, 4}, {1, 2, 1024}, {0, 1, 8}), Trees),
+     Slice("tf", TF_B, {F32(<< <<4, 3>>, <<5>>, <<>> >>)}),
+     Slice("tfso", TFSOCfgs, FewTrees \cup {F32(<< <<2, 2, 2, 2>> >>), F32(<< <<1, 4>>, <<4, 1>> >>)}) >>
 
 (* ---- thorough --------------------------------------------------------------------- *)
-MCT_Cases ==
-  DSCases(DS_A({0, 1, 2, 3, 0 - 1, 0 - 2, 0 - 3}, {0, 1, 2, 3, 4}, {1, 2, 3, 4, 8}, Merges, Modes), TreesT)
-  \cup DSCases(DS_B(AllGrafts, {0, 1, 2, 0 - 1, 0 - 2}, {1, 2, 8},
-                    Intervals \cup {[S |-> 2, P |-> 1]}, Modes), FewTreesT)
-  \cup SM3Cases(TreesT \cup {X64F32(s) : s \in ShapeSets})
-  \cup TFCases(TF_A({0, 1, 2, 3, 4, 8, 1024}, {1, 2, 3, 4, 8, 1024}, {0, 1, 2, 3, 8}), TreesT)
-  \cup TFCases(TF_B, FewTreesT)
-  \cup TFSOCases(TreesT)
+MCT_Slices ==
+  << Slice("ds", DS_A({0, 1, 2, 3, Neg(1), Neg(2)}, {0, 1, 2, 3, 4}, {1, 2, 3, 4, 8}, {2, 4, 4096}, Local, {1}), TreesT),
+     Slice("ds", DS_A({0, 1, 2, 3, Neg(1), Neg(2)}, {0, 1, 2, 3, 4}, {1, 2, 3, 4, 8}, {2, 4, 4096}, Sharded, {1, 2, 3}), TreesT),
+     Slice("ds", DS_B(AllGrafts, {0, 1, 2, Neg(1), Neg(2)}, {2, 8}, {1, 2}, Local, {1}), FewTreesT),
+     Slice("ds", DS_B(AllGrafts, {0, 1, 2, Neg(1), Neg(2)}, {2, 8}, {1, 2}, Sharded, {1, 2}), FewTreesT),
+     Slice("sm3", SM3Cfgs, TreesT \cup {X64F32(s) : s \in ShapeSets}),
+     Slice("tf", TF_A({0, 1, 2, 3, 4, 8, 1024}, {1, 2, 3, 4, 8, 1024}, {0, 1, 2, 3, 8}), TreesT),
+     Slice("tf", TF_B, FewTreesT),
+     Slice("tfso", TFSOCfgs, TreesT) >>
+
+(* ---- development ---------------------------------------------------------------------- *)
+Tiny_Slices ==
+  << Slice("ds", DS_A({0, 2}, {1}, {3, 8}, {4096}, Local \cup Sharded, {2}), FewTrees),
+     Slice("ds", DS_B({"SGD"}, {0, 1}, {8}, {1, 2}, Local \cup Sharded, {2}), {F32(<< <<4, 3>>, <<5>>, <<>> >>)}),
+     Slice("sm3", SM3Cfgs, FewTrees),
+     Slice("tf", TF_A({2, 4}, {4, 1024}, {1, 2}), FewTrees),
+     Slice("tfso", TFSOCfgs, FewTrees) >>
 =============================================================================
